@@ -15,6 +15,8 @@ def make(pid, rule=None, trusted_extra=()):
         return generic.corpus_lines(pid) + lines
     def oracles(ctx, hints):
         out = []
+        if pid in ("C01", "C02", "C03", "C04", "C05", "C06", "C10", "C14", "C15"):
+            out += generic.oracle_no_sharing(ctx)
         for m in families.MODULES + [generic]:
             f = getattr(m, "oracles_" + pid, None)
             if f is not None:
